@@ -321,6 +321,10 @@ func c09Cases(rng *rand.Rand) []c09Case {
 	srcs := append([]string{}, c08Fixed...)
 	srcs = append(srcs, `Inc(1) + Inc(2)`, `Half(3) * 2`, `I + 1`, `S + S2`, `1 + 2 - 3`, `(I - 1) + Inc(4)`, `Twice(I)`, `PtrM(2)`, `St.Get()`, `P.Get() + St.Next.Get()`,
 		`MI["zz"] + 1`, `MA["nope"]`, `Undefined`, `Undefined?.x`, `{"a": 1}.b`, `AA[1:2]`, `AI[2:]`, `map(AA, {#})`, `filter(AA, {# != nil})[0]`)
+	// membership in literal arrays with REPEATED elements, for operands of every static kind (what the optimizer builds from such an
+	// array has to be the same constant in every compile)
+	srcs = append(srcs, `I64 in [1, 2, 1, 3]`, `I64 not in [3, 3, 2, 1, 2]`, `Any in ["a", "b", "a", "c"]`, `F64 in [1, 2, 2, 3, 1]`, `Any in [1, "a", 1, "b", "a"]`, `I in [5, 4, 5, 3, 4, 2, 3, 1]`,
+		`S in ["x", "y", "x", "z", "y", "abc"]`, `U8 in [1, 2, 1, 3]`, `AA[0] in [3, 1, 3, 2, 1]`, `Id(S) in ["b", "a", "b", "abc"]`, `all(AI, {# in [4, 1, 4, 2, 3, 2]})`, `[1, 2, 1, 3][I % 4] in [9, 8, 9, 1]`)
 	// runs that FAIL while looking a member up on a pointer / a map that holds pointers: the error returned on an equal, separately
 	// allocated environment has to be the same text (nothing address-like may reach it)
 	srcs = append(srcs, `P.Zz`, `P.Zz()`, `P.Next.Zz`, `St.Next.Zz()`, `P.Next.Zz + 1`, `MA.Zz()`, `MA.k.z`, `Any.zz`, `[P][0].Zz`, `{"p": P}.p.Zz`, `{"p": P}.Zz()`, `{"p": P, "q": St.Next}.zz.y`,
